@@ -234,7 +234,7 @@ func init() {
 		Gen: func(c *Ctx, emit func(class, op string)) {
 			r := c.Rng
 			capsPool := []string{"0", "0", "1", "2", "64", "nil"}
-			for i := 0; i < c.N(60, 1200); i++ {
+			for i := 0; i < c.N(300, 2500); i++ {
 				bs := pipeStream(c)
 				k := 1 + r.Intn(4)
 				var caps, delays []string
